@@ -332,3 +332,10 @@ def fast_constraint_autoresolved_choice_inactive(case, v):
     spec = _spec(case)
     enc = case.get('enc') or case.get('mode') or _d(v).get('enc')
     return enc == 'FAST' and (any(True for _ in _choice_constraints(spec)) or bool(spec.get('incompat')))
+
+
+def pattern_encoder_variables_for_single_matrix(case, v):
+    """KF21: a pattern encoder is selected for settings that admit a single connection set overall and still declares
+    design variables (each with one usable value)"""
+    d = _d(v)
+    return (d.get('n_total') is not None and d.get('n_total') <= 1) and 'Pattern' in v.get('detail', '')
